@@ -184,6 +184,17 @@ def run(tier: str, driver_ok: bool) -> Result:
             i = xml.index("<SignatureData>") + 40
             bad = xml[:i] + ("A" if xml[i] != "A" else "B") + xml[i + 1 :]
             gates.append(("pop", {"ksr_xml": bad}))
+            # everything passes and every signature is made, but the SKR cannot be serialised (the KSR's ZSK policy announces an
+            # ECDSA algorithm next to the RSA one, which the operator policy accepts; the writer only knows RSA): the failure comes
+            # AFTER the signing stage, so C_Sign operations are expected — but the output path must still be untouched
+            from kskm.common.data import AlgorithmDNSSEC, AlgorithmPolicyECDSA
+
+            rq = sc.request()
+            rq = rq.replace(zsk_policy=rq.zsk_policy.replace(algorithms=set(rq.zsk_policy.algorithms) | {AlgorithmPolicyECDSA(bits=256, algorithm=AlgorithmDNSSEC.ECDSAP256SHA256)}))
+            o = R.run_ceremony(sc, work, answer="Yes", ksr_xml=C.request_to_xml(rq), rp_extra={"approved_algorithms": ["RSASHA256", "ECDSAP256SHA256"]})
+            observe(res, runs, o, {"stream": "gate", "n": n, "gate": "skr-not-serialisable"}, baseline, expect_success=False)
+            if not o["sign_ops"]:
+                res.notes.append("skr-not-serialisable gate did not reach the signing stage (generator problem)")
             for gate, kw in gates:
                 o = R.run_ceremony(sc, work, answer="Yes", **kw)
                 # zero token operations at all for a bad KSR (it is loaded before the HSM is initialised)
@@ -251,7 +262,8 @@ def run(tier: str, driver_ok: bool) -> Result:
                     res.disagreement("ksrsigner: driver error", x["case"], x["outcome"], m)
                     continue
                 if lib.is_unsupported(m["result"]):
-                    res.unsupported += 1
+                    # nothing here is outside the modelled domain: the model left the recorded run (replay / oracle miss)
+                    res.disagreement("ksrsigner: the model could not follow the implementation's run (it expects other token operations / oracle questions)", x["case"], x["outcome"], m["result"], log_difference=C.first_log_difference(x["log"], m["log"]))
                     continue
                 impl = x["outcome"]
                 if "exit" in impl:  # main(): compare exit statuses
